@@ -183,7 +183,7 @@ class Unit:
     def build(self, canary=False):
         chunks = []
         self._canary_n = 0
-        chunks.append(Chunk(rules.FILE_HEADER, ("gen", "header")))
+        chunks.append(Chunk("".join(a + "\n" for a in getattr(self, "crate_attrs", [])) + rules.FILE_HEADER, ("gen", "header")))
         for p in self.preludes:
             text = open(os.path.join(VERIF, "prelude", p + ".rs")).read()
             chunks.append(Chunk(text + "\n", ("prelude", p)))
